@@ -5,6 +5,7 @@ mod components;
 mod evmasm;
 mod evmenv;
 mod faultgen;
+mod histcomp;
 mod hook;
 mod known;
 mod minimise;
